@@ -493,14 +493,75 @@ def _atx(run, repo, world, folder):
            where(mod, mod.tree), sample={"rule": "R-WIRE-ATX",
                                          "prefix_by_bits": pref})
     o, fn = _m(world, ATX + ".DaliHatSerialDriver", "construct")
-    t = ast.unparse(fn)
+    # the line as a formula: path summaries of construct(), the returned
+    # expression denoted as ascii(<prefix> + HEX(frame bytes) + "\n")
+    from .. import paths, pred
+    from ..denote import Denoter
+    from ..normal import normalise
+    nfn = normalise(fn, world, ATX, world.cls(ATX + ".DaliHatSerialDriver"),
+                    aliases=False)
+    cmd = fn.args.args[1].arg
+    try:
+        summ = paths.summaries(nfn)
+    except paths.Unsupported as e:
+        raise AnalysisError("R-WIRE-ATX: construct() is not loop-free: %s"
+                            % e)
+    size_txt = "len(%s.frame)" % cmd
+
+    def lin(e):
+        if isinstance(e, ast.Constant) and type(e.value) is int:
+            return pred.Lin.const(e.value)
+        if unparse(e) == size_txt:
+            return pred.Lin.sym("bits")
+        return None
+    P = pred.Parser(lin)
+    D = Denoter(raw="<none>", strsyms=True)
+    cases = {}
+    for pth in summ:
+        trees = []
+        for (t_, b_) in pth.conds:
+            if unparse(t_).startswith("isinstance("):
+                continue
+            tr = P.tree(t_)
+            trees.append(tr if b_ else ("not", tr))
+        d = pred.dnf(("and", trees))
+        if not d:
+            continue
+        if pth.kind != "return":
+            key = (pth.kind,)
+        else:
+            key = D.den(pth.expr)
+        cases[key] = pred.union(cases.get(key, frozenset()), d)
+    hexd = ("hex", sp["hex"], "%s.frame.pack" % cmd)
+    nl = ("lit", sp["terminator"])
+    table = ("bytes-of", "ascii", ("fmt", (
+        ("strsym", "DALI_PACKET_PREFIX[%s]" % size_txt), hexd, nl)))
+    twice = ("bytes-of", "ascii", ("fmt", (
+        ("lit", sp["sendtwice_prefix_16"]), hexd, nl)))
+    tw = ("and", [("atom", ("p", "%s.sendtwice" % cmd, True)),
+                  ("atom", ("le", "bits", "0", -16)),
+                  ("atom", ("le", "0", "bits", 16))])
+    want = {twice: pred.dnf(tw), table: pred.dnf(("not", tw))}
+    problems = []
+    for k, w in want.items():
+        g = cases.pop(k, frozenset())
+        if not pred.equivalent(g, w)[0]:
+            problems.append("the line %s is produced when %s, protocol: "
+                            "when %s" % (k[2], pred.show(g) or "never",
+                                         pred.show(w)))
+    for k, g in cases.items():
+        if k[0] == "opaque":
+            raise AnalysisError("R-WIRE-ATX: construct() returns `%s`, "
+                                "outside the string forms read" % k[1])
+        problems.append("undocumented outcome %s when %s" % (
+            k, pred.show(g) or "always"))
     run.ob("R-WIRE-ATX", ATX + ".DaliHatSerialDriver.construct",
-           "prefix = DALI_PACKET_PREFIX[packet_size]" in t and
-           "if command.sendtwice and packet_size == 16:" in t and
-           "prefix = 't'" in t and "'{:02X}'.format(byte) for byte in f.pack"
-           in t and "f'{prefix}{data}\\n'.encode('ascii')" in t,
-           "the line must be <prefix><upper-case hex of the frame>\\n with "
-           "'t' for 16-bit send-twice commands", where(mod, fn))
+           not problems,
+           "the line must be <prefix by frame size><upper-case hex of the "
+           "frame>\\n, ascii, with 't' for 16-bit send-twice commands: %s"
+           % "; ".join(problems), where(mod, fn),
+           sample={"rule": "R-WIRE-ATX", "cases": [
+               [str(k), pred.show(v) or "always"] for k, v in want.items()]})
     # R-BYTES: construct() returns bytes; .encode() must not be applied to it
     run.rule("R-BYTES", "values already encoded to bytes are written as "
              "they are (no .encode() on bytes)")
